@@ -31,6 +31,7 @@ type c08Env struct {
 	icmp4 *icmp.Handler4
 	icmp6 *icmp.Handler6
 	dns   *dns.DNSHandler
+	radvs *icmp.RADVS // set when this environment advertises itself as an IPv6 router
 	n     int
 }
 
@@ -53,6 +54,9 @@ func newC08EnvFile(leaseFile string) *c08Env {
 }
 
 func (e *c08Env) close() {
+	if e.radvs != nil {
+		e.radvs.Stop()
+	}
 	e.arp.Close()
 	e.dhcp.Close()
 	e.icmp6.Close()
@@ -72,6 +76,9 @@ func c08Get() *c08Env {
 		c08E.arp.StartHunt(packet.Addr{MAC: hw(w.Clients[0]), IP: netip.MustParseAddr("192.168.0.2")})
 		c08E.icmp6.StartHunt(packet.Addr{MAC: hw(w.Clients[0]), IP: netip.MustParseAddr("fe80::1")})
 		c08E.s.Capture(hw(w.Clients[1]))
+		// ... and the handler advertises itself as a router (RADVS): advertisements that claim to come from our own
+		// link-local address then meet a router record of our own
+		c08E.radvs, _ = c08E.icmp6.StartRADVS(false, false, []packet.PrefixInformation{{PrefixLength: 64, OnLink: true, AutonomousAddressConfiguration: true, ValidLifetime: time.Hour, PreferredLifetime: time.Hour, Prefix: netip.MustParseAddr("2001:db8:99::").AsSlice()}}, nil)
 	}
 	c08E.n++
 	return c08E
@@ -215,6 +222,12 @@ func c08Frame(t *rapid.T, w gen.World) ([]byte, int, string) {
 		return ref.Eth(w.HostMAC, cl, 0x0800, ref.IP4(ref.IP4Hdr{TotalLen: -1, TTL: 64, Proto: 1, Checksum: -1, Src: src4, Dst: w.HostIP.As4()}, msg)), 1, class
 	case "icmp6":
 		dst := netip.MustParseAddr("ff02::1").As16()
+		switch rapid.IntRange(0, 9).Draw(t, "lla6Special") { // senders that claim a router's address: ours, the real router's
+		case 0:
+			lla = w.HostLLA.As16()
+		case 1:
+			lla = w.RouterLLA.As16()
+		}
 		msg := gen.ICMP6Message(t, lla, dst)
 		if rapid.IntRange(0, 7).Draw(t, "crossFamily") == 0 { // protocol 58 in an IPv4 packet
 			return ref.Eth(w.HostMAC, cl, 0x0800, ref.IP4(ref.IP4Hdr{TotalLen: -1, TTL: 255, Proto: 58, Checksum: -1, Src: src4, Dst: w.HostIP.As4()}, msg)), 4, "icmp6-in-ip4"
